@@ -115,3 +115,31 @@ def run(model: Model, rep: Report) -> None:
     gd = model.func(D + "PDFDocument.get_dest")
     s5 = "".join(unparse(gd.node).split())
     r4.check("obj=self.lookup_name('Dests',name)" in s5 and "exceptKeyError:" in s5 and "raisePDFDestinationNotFound(name)" in s5 and "d0=dict_value(self.catalog['Dests'])" in s5, site(gd), gd.qualname, "destinations: the Dests name tree first, then the PDF 1.1 /Dests dictionary, else PDFDestinationNotFound", why="changed")
+    _numerals(model, rep)
+
+
+def _numerals(model: Model, rep: Report) -> None:
+    """C17-R5: the numeral formatters' tables and digit cases."""
+    from ..norm import NotPolynomial, Poly, SymEval
+
+    r5 = rep.rule("C17-R5", "TABLE", "roman numerals: digit tables i/x/c/m and v/l/d, digit 9 = one + next one, 4 = one + five, 5..8 = five + ones, decimal digits from the right; letters: bijective base 26 (a..z, aa..)", 6)
+    um = model.module("pdfminer.utils")
+    try:
+        ones = ast.literal_eval(um.assigns["ROMAN_ONES"])
+        fives = ast.literal_eval(um.assigns["ROMAN_FIVES"])
+    except (KeyError, ValueError):
+        raise AnchorMissing("utils.ROMAN_ONES / ROMAN_FIVES not literal")
+    r5.check(ones == ["i", "x", "c", "m"] and fives == ["v", "l", "d"], f"{um.relpath}:{getattr(um.assigns['ROMAN_ONES'], 'lineno', 0)}:ROMAN_ONES", "pdfminer.utils", "ones = i x c m, fives = v l d (by decimal position)", why=f"{ones} {fives}")
+    fr = model.func("pdfminer.utils.format_int_roman")
+    s = "".join(unparse(fr.node).split())
+    r5.check("value,remainder=divmod(value,10)" in s.replace("(value,remainder)", "value,remainder") and "index+=1" in s and "whilevalue!=0:" in s, site(fr), fr.qualname, "decimal digits are taken from the right, one table position per digit", why="digit loop changed")
+    arms = {}
+    for n in walk_no_nested(fr.node):
+        if isinstance(n, ast.If) and isinstance(n.test, ast.Compare) and unparse(n.test.left) == "remainder" and isinstance(n.test.ops[0], ast.Eq) and isinstance(n.test.comparators[0], ast.Constant):
+            arms[n.test.comparators[0].value] = ["".join(unparse(x).split()) for x in n.body]
+    r5.check(arms.get(9) == ["result.insert(0,ROMAN_ONES[index])", "result.insert(1,ROMAN_ONES[index+1])"], site(fr), fr.qualname, "digit 9: the one of this position, then the one of the next position (ix, xc, cm)", why=f"{arms.get(9)}")
+    r5.check(arms.get(4) == ["result.insert(0,ROMAN_ONES[index])", "result.insert(1,ROMAN_FIVES[index])"], site(fr), fr.qualname, "digit 4: the one, then the five of this position (iv, xl, cd)", why=f"{arms.get(4)}")
+    r5.check("over_five=remainder>=5" in s and "ifover_five:result.insert(0,ROMAN_FIVES[index])remainder-=5" in s and "result.insert(1ifover_fiveelse0,ROMAN_ONES[index]*remainder)" in s, site(fr), fr.qualname, "other digits: the five of this position if the digit is at least 5, then digit mod 5 ones after it", why="changed")
+    fa = model.func("pdfminer.utils.format_int_alpha")
+    s2 = "".join(unparse(fa.node).split())
+    r5.check("value,remainder=divmod(value-1,len(string.ascii_lowercase))" in s2.replace("(value,remainder)", "value,remainder") and "result.append(string.ascii_lowercase[remainder])" in s2 and "result.reverse()" in s2, site(fa), fa.qualname, "letters: repeated divmod(value - 1, 26), least significant letter first, reversed at the end", why="changed")
